@@ -133,6 +133,7 @@ def classify(result, prov):
                 if e:
                     site_line = s['line_start']
         site_text = ' '.join(t['text'].strip() for sp in primary for t in sp.get('text', []))[:300]
+        exit_text = ' '.join(t['text'].strip() for sp in spans if not sp.get('is_primary') and ('exit' in (sp.get('label') or '') or 'end of the function' in (sp.get('label') or '')) for t in sp.get('text', [])[:3])[:300]
         clause_line, clause_text, tags = None, None, None
         if labelled:
             s = labelled[0]
@@ -157,7 +158,7 @@ def classify(result, prov):
             tags = func['tags']
         failures.append(dict(function=func['name'] if func else None, emit_name=func['emit_name'] if func else None,
                              canary=canary, kind=msg, tags=tags or '', clause_line=clause_line, clause_text=clause_text,
-                             site_line=site_line, site_text=site_text, region=where, rendered=rendered,
+                             site_line=site_line, site_text=site_text, exit_text=exit_text, region=where, rendered=rendered,
                              src=func['src'] if func else None, src_lines=func['src_lines'] if func else None))
     return dict(failures=failures, undecided=undecided, fatal=fatal)
 
